@@ -129,11 +129,11 @@ Theorem C10_v1_lookup_cases :
                          rc_grace := b_grace b; rc_min := dec_zero |} in
     match aget (c1_props c) key with
     | Some (Some q) => of_entry q
-    | Some None => out = {| pc_fee := fbfee; pc_relays := [] |}
-    | None => match c1_default c with
-              | Some q => of_entry q
-              | None => out = {| pc_fee := fbfee; pc_relays := [] |}
-              end
+    | Some None | None =>                      (* a null entry is no entry *)
+        match c1_default c with
+        | Some q => of_entry q
+        | None => out = {| pc_fee := fbfee; pc_relays := [] |}
+        end
     end.
 Proof. exact v1_lookup_cases. Qed.
 Print Assumptions C10_v1_lookup_cases.
@@ -150,8 +150,8 @@ Print Assumptions C10_v1_map_order_irrelevant.
 (* docs/execlayer.md words the legacy precedence PER VALUE (entry, else default_config, else
    fallback: [resolve_v1_doc]).  Full statement:
      forall c key fbfee fbgas, proposer_config_v1 c key fbfee fbgas = resolve_v1_doc c key fbfee fbgas.
-   The code selects one whole entry, so this holds only for lookups whose key has no entry or an
-   entry with both a gas limit and a builder (a null entry counts as incomplete) ... *)
+   The code selects one whole entry, so this holds only for lookups whose key has no entry (or a
+   null one) or an entry with both a gas limit and a builder ... *)
 Theorem C10_v1_fieldwise_partial :
   forall (c : config1) (key fbfee fbgas : N),
     v1_entry_complete c key = true ->
